@@ -28,6 +28,7 @@ def small_alphabet(L):  # noqa: N803
 
 def random_program(rnd, L, n):  # noqa: N803
     prog = []
+    only_abs = rnd.random() < 0.3  # absolute seeks only: a compressed packed stream then stays on its re-inflate-from-zero path
     for _ in range(n):
         x = rnd.random()
         if x < 0.35:
@@ -36,7 +37,7 @@ def random_program(rnd, L, n):  # noqa: N803
         elif x < 0.45:
             prog.append(('tell',))
         else:
-            w = rnd.choice([0, 0, 1, 1, 2])
+            w = 0 if only_abs else rnd.choice([0, 0, 1, 1, 2])
             inrange = rnd.random() < 0.8
             if w == 0:
                 t = rnd.randint(0, L) if inrange else rnd.choice([-1, -5, L + 1, L + 70000])
